@@ -7,9 +7,28 @@
    is C03/C04); clock, default expiration and callback are constant during the
    phase; what Range's snapshot hands to DeleteExpired is ARBITRARY (chosen by
    the schedule).  Calls: Set*, Get*, GetOr*, GetAnd*, Compute, Delete,
-   GetAndDelete, DeleteExpired, Clear. *)
+   GetAndDelete, DeleteExpired, Clear.
+   C02_cache_over_mapof / C02_cache_over_map (proofs/CX_trans.v, CX_compose.v,
+   CX_product.v, CX_mapof.v, CX_map.v): the hypothesis "each map call is atomic"
+   REMOVED -- the cache methods run over the concurrent machines XMachine
+   (mapof.go) and XMachineS (map.go) themselves, every map call of a method being
+   executed primitive by primitive, interleaved with everybody else's, and every
+   run from the empty cache is linearizable w.r.t. the TTL-map semantics.  The
+   proof is compositional: the map-level projection of a run is linearizable
+   (C04_linearizable / C03_linearizable, used as black boxes through a
+   prophecy of the calls the threads will make); CX_compose turns a
+   linearization of the map calls into a run of the atomic-map machine of Conc.v
+   with the same cache-level history; C02_cache_linearizable concludes.
+   Remaining scope limits: the snapshot of Range that feeds DeleteExpired is one
+   product step with an arbitrary answer (as in Conc.v), i.e. Range's own bucket
+   locking is not interleaved at this level (it is in C03 / C07); Count is not a
+   linearizable call; the cache text is CacheModel (xsync_map.go); C12 relates
+   the twin text sequentially. *)
 From CacheV Require Import Base SpecMap Client CacheModel Ops SpecTTL Lin Conc.
 From CacheV.proofs Require Import C01_sim C01_hist C02_good C02_methods C02_lin.
+From CacheV Require XMachine XMachineS.
+From CacheV.proofs Require X_lin XS_resize CX_trans CX_compose CX_product CX_mapof CX_map.
+From Coq Require Import NArith.
 
 Theorem C02_cache_linearizable :
   forall (K V : Type) (eqd : forall a b : K, {a = b} + {a <> b}) (zero : V) (NOW DFLT : Z) (CB : cbid)
@@ -28,3 +47,32 @@ Theorem C02_start_empty :
     @Rm K V eqd NOW DFLT CB [] [].
 Proof. intros. apply C01_hist.R_init. reflexivity. Qed.
 Print Assumptions C02_start_empty.
+
+(* ---------------- the cache over the concurrent maps themselves ---------------- *)
+
+Theorem C02_cache_over_mapof :
+  forall (K V : Type) (eqd : forall a b : K, {a = b} + {a <> b}) (zero : V) (NOW DFLT : Z) (CB : cbid)
+         hash idx tag nslots seeds g sh probe nstripes minlen grow_only,
+    X_lin.xhyps4 idx nstripes minlen nslots probe -> forall len0 (todo : nat -> list (cop K V)) sched, (0 < len0)%nat ->
+    (forall t, Forall conc_ok (todo t)) ->
+    linearizable _ _ _ (tspec eqd zero) (mk NOW DFLT CB [])
+      (CX_mapof.cxhist eqd hash idx tag nslots seeds g sh probe nstripes minlen grow_only len0
+              (prog_cache eqd zero) NOW DFLT CB todo sched).
+Proof. intros. apply CX_mapof.cache_over_xmachine_linearizable; assumption. Qed.
+Print Assumptions C02_cache_over_mapof.
+
+Theorem C02_cache_over_map :
+  forall (K V : Type) (eqd : forall a b : K, {a = b} + {a <> b}) (zero : V) (NOW DFLT : Z) (CB : cbid)
+         hash idx tophash nslots seeds g sh nstripes minlen grow_only,
+    @XS_resize.rhyps K hash idx tophash nslots minlen -> forall len0 (todo : nat -> list (cop K V)) sched, (0 < len0)%nat ->
+    (forall t, Forall conc_ok (todo t)) ->
+    linearizable _ _ _ (tspec eqd zero) (mk NOW DFLT CB [])
+      (CX_map.cshist eqd hash idx tophash nslots seeds g sh nstripes minlen grow_only len0
+              (prog_cache eqd zero) NOW DFLT CB todo sched).
+Proof. intros. apply CX_map.cache_over_smachine_linearizable; assumption. Qed.
+Print Assumptions C02_cache_over_map.
+
+Definition C02_over_mapof_nonvacuous := CX_mapof.cache_over_xmachine_run.
+Definition C02_over_map_nonvacuous := CX_map.cache_over_smachine_run_a.
+Print Assumptions C02_over_mapof_nonvacuous.
+Print Assumptions C02_over_map_nonvacuous.
